@@ -38,4 +38,19 @@ def gtmIntegrator : List (String × String) :=
 def gtmExtension : List (String × String) :=
   [("callee", "<derived object>.update"), ("Mmax", "18"), ("Mmin", "np.log10(self.m[-1]) + self.dlog10m")]
 
+/-- the complete list of places where the framework classes construct a component, derive a framework object or call a package-internal
+    numerical routine: a new construction site (e.g. a throw-away second filter built without the user's parameters) is a change of wiring -/
+def sites : List String :=
+  ["Cosmology.cosmo", "MassFunction._gtm/<derived object>.update", "MassFunction._gtm/hmf_integral_gtm", "MassFunction.filter", "MassFunction.hmf",
+   "MassFunction.mdef", "MassFunction.normalised_filter", "MassFunctionWDM.dndm", "Transfer._unn_sig8/filters.TopHat", "Transfer._unn_sig8/filters.TopHat#2",
+   "Transfer.growth", "Transfer.nonlinear_delta_k", "Transfer.transfer", "TransferWDM.wdm"]
+
+/-- C03: σ₈ is always defined with a real-space top-hat: on the fixed internal wavenumber range ln k ∈ [−8, 8) at the object's own
+    resolution, with kⁿT² of the object's own transfer model, whenever the requested range is narrower than [−15, 9]; otherwise on the
+    object's own grid and un-normalised power -/
+def sig8Narrow : List (String × String) :=
+  [("callee", "filters.TopHat"), ("#0", "np.exp(np.arange(-8, 8, self.dlnk))"),
+   ("#1", "np.exp(np.arange(-8, 8, self.dlnk)) ** self.n * np.exp(self.transfer.lnt(np.arange(-8, 8, self.dlnk))) ** 2")]
+def sig8Wide : List (String × String) := [("callee", "filters.TopHat"), ("#0", "self.k"), ("#1", "self._unnormalised_power")]
+
 end Hmf.Spec.Wiring
